@@ -174,6 +174,62 @@ def random_netlists(seed=0, n=6, **kw):
     return out
 
 
+def targeted(**kw):
+    """netlist shapes the random generator rarely produces: a child with several outputs feeding several wires into one
+    reader two or more columns away; one wire read on two pins of the same child; wide fan-out; a register loop"""
+    import py4hw
+    from py4hw.logic import relational as R
+    out = []; evals = 0
+    def mk(build):
+        s = _q(py4hw.HWSystem)
+        class Top(py4hw.Logic):
+            def __init__(self, parent, name):
+                super().__init__(parent, name)
+                build(self, s)
+        return _q(Top, s, 'top')
+    def multi_out_far(t, s):
+        a = s.wire('a', 4); b = s.wire('b', 4); r = s.wire('r', 1); t.addIn('a', a); t.addIn('b', b); t.addOut('r', r)
+        g = t.wire('g'); e = t.wire('e'); l = t.wire('l')
+        R.Comparator(t, 'cmp', a, b, g, e, l)
+        # a chain that pushes the reader several columns to the right
+        x1 = t.wire('x1', 4); x2 = t.wire('x2', 4); x3 = t.wire('x3', 1)
+        py4hw.Not(t, 'n1', a, x1); py4hw.Not(t, 'n2', x1, x2); py4hw.Bit(t, 'b0', x2, 0, x3)
+        py4hw.And(t, 'and3', [g, l, x3], r)
+    def same_wire_two_pins(t, s):
+        x = s.wire('x', 4); r = s.wire('r', 8); t.addIn('x', x); t.addOut('r', r)
+        py4hw.Mul(t, 'sq', x, x, r)
+    def fanout(t, s):
+        a = s.wire('a', 4); t.addIn('a', a)
+        for k in range(4):
+            o = s.wire('o%d' % k, 4); t.addOut('o%d' % k, o); py4hw.Not(t, 'n%d' % k, a, o)
+    def reg_loop(t, s):
+        en = s.wire('en'); q_ = s.wire('q', 4); t.addIn('en', en); t.addOut('q', q_)
+        nx = t.wire('nx', 4); one = t.wire('one', 4)
+        py4hw.Constant(t, 'one', 1, one); py4hw.Add(t, 'inc', q_, one, nx); py4hw.Reg(t, 'r', nx, q_, enable=en)
+    def two_wires_same_pair_far(t, s):
+        a = s.wire('a', 4); b = s.wire('b', 4); r = s.wire('r', 4); t.addIn('a', a); t.addIn('b', b); t.addOut('r', r)
+        ra = t.wire('ra', 4); rb = t.wire('rb', 4); sw = t.wire('sw')
+        py4hw.Constant(t, 'k0', 0, sw)
+        R.Swap(t, 'swap', a, b, sw, ra, rb)
+        y1 = t.wire('y1', 4); y2 = t.wire('y2', 4)
+        py4hw.Not(t, 'm1', a, y1); py4hw.Not(t, 'm2', y1, y2)
+        z = t.wire('z', 4); py4hw.And(t, 'and3', [ra, rb, y2], z); py4hw.Buf(t, 'o', z, r)
+    for nm, bld in (('multi-output-child-far-reader', multi_out_far), ('one-wire-two-pins-of-a-child', same_wire_two_pins), ('fan-out-4', fanout),
+                    ('register-feedback-loop', reg_loop), ('two-wires-between-one-pair-far', two_wires_same_pair_far)):
+        try:
+            top = mk(bld)
+        except Exception as e:
+            continue
+        evals += 1
+        bad = _check(top, nm, {})
+        if bad:
+            out.append({'oid': 'schematic::targeted.%s#bounded' % nm, 'status': 'bounded-fail', 'bounded': True, 'evaluations': evals, 'model': {'design': nm}, 'cfg': {'design': nm},
+                        'replay': {'reproduced': True, 'got': bad[:6], 'expected': 'postcondition of placeAndRoute'}, 'function': 'Schematic.placeAndRoute'})
+    if not out:
+        out.append({'oid': 'schematic::targeted#bounded', 'status': 'bounded-ok', 'bounded': True, 'evaluations': evals, 'function': 'Schematic.placeAndRoute'})
+    return out
+
+
 def main(tier, seed, only=None):
     t0 = time.time()
     work._load_blocks()
@@ -181,6 +237,7 @@ def main(tier, seed, only=None):
     if tier != 'quick': names += ['FPMult_SP', 'InttoFP_SP']
     chunks = [names[i::16] for i in range(16)]
     items = [('props.C18:blocks', dict(names=c)) for c in chunks if c]
+    items += [('props.C18:targeted', {})]
     items += [('props.C18:random_netlists', dict(seed=seed * 100 + k, n=4 if tier == 'quick' else 25)) for k in range(8)]
     items = common.filter_only(items, only)
     res = run.run_items(items)
